@@ -226,6 +226,7 @@ import BGV
 #print axioms BGV.C16_removeEdge_all_copies
 #print axioms BGV.C16_removeDuplicateEdges
 #print axioms BGV.C16_dedup_restores_inv
+#print axioms BGV.C16_und_adjacencyMatrix_counts
 #print axioms BGV.C16_multi_forced_add
 #print axioms BGV.C16_adjacencyMatrix_counts
 #print axioms BGV.C16_uweighted_forced_add
